@@ -447,6 +447,42 @@ class Representation(ObjectWithFields):
         output_s_node(s_node)
         return rv
 
+    def generate_period_timeline(
+            self,
+            start_timecode: int,
+            duration: datetime.timedelta) -> list[SegmentTimelineElement]:
+        """
+        The SegmentTimeline of a Period of a multi-period stream that plays
+        this media from the segment that get_segment_index() selects for
+        start_timecode. Times count from zero at the start of that segment.
+        Every segment that starts within the duration of the Period is
+        listed, up to the last segment of the media.
+        """
+        rv: list[SegmentTimelineElement] = []
+        mod_segment, _, origin_time = self.get_segment_index(start_timecode)
+        if origin_time > 0:
+            # the Period starts beyond the end of the media
+            return rv
+        usecs: int = duration // datetime.timedelta(microseconds=1)
+        pos: int = 0
+        s_node = SegmentTimelineElement(mod_segment=mod_segment)
+        while (
+                mod_segment <= self.num_media_segments and
+                pos * 1_000_000 < usecs * self.timescale):
+            seg_duration: int = self.segments[mod_segment].duration
+            if s_node.duration is None:
+                s_node.start = pos
+            elif seg_duration != s_node.duration:
+                rv.append(s_node)
+                s_node = SegmentTimelineElement(mod_segment=mod_segment)
+            s_node.duration = seg_duration
+            s_node.count += 1
+            pos += seg_duration
+            mod_segment += 1
+        if s_node.duration is not None:
+            rv.append(s_node)
+        return rv
+
     def timedelta_to_timescale(self, delta: datetime.timedelta) -> int:
         """
         Convert the given timedelta into the timescale used by this representation
